@@ -839,3 +839,140 @@ Qed.
 Lemma reachable_stored_is_latest T sv gh : reachable T sv gh ->
   forall i, cache_inv (g_rend gh i) (block2 (nth i (resources sv) rstate_empty)) /\ stored_is_latest (g_rend gh i) (g_latest gh i).
 Proof. intros H i. destruct (reachable_inv T sv gh H i) as (_ & I2 & _ & I4). split; assumption. Qed.
+
+(* ------------------------------------------------------------------------------------------ round 5 *)
+(* where the code of an answer comes from: the three codes the blockwise layer produces itself, the rendering of this
+   request, or a stored rendering *)
+Lemma resp_ok_code ga' gr req rendering calls res : resp_ok ga' gr req rendering calls res ->
+  In (p_code res) [CONTINUE; BAD_REQUEST; REQUEST_ENTITY_INCOMPLETE] \/ p_code res = p_code rendering \/
+  exists k Rn, gr k = Some Rn /\ p_code res = p_code Rn.
+Proof.
+  intros [(e & _ & Hres & Tk)|(req1 & r0 & Tk & B & Hres)]; subst res.
+  - left. unfold taken_ok in Tk. destruct (m_block1 req) as [b|]; [|contradiction].
+    destruct Tk as [[_ ->]|[[_ ->]|(_ & _ & ->)]]; cbn; auto.
+  - assert (Hr0 : (exists R n szx mps, (R = rendering \/ exists k, gr k = Some R) /\ r0 = extract_block R n szx mps) \/ r0 = ROk rendering \/ r0 = RRaise EIncomplete).
+    { unfold block2_ok in B. destruct (m_block2 req1) as [b2|].
+      - destruct (b_num b2 =? 0).
+        + destruct B as [_ ->]. destruct (needs_chunking req1 rendering); [left|right; left; reflexivity].
+          exists rendering, 0, (b_szx b2), (m_mps req1). split; [left|]; reflexivity.
+        + destruct B as [_ [Hr|(Rn & G & Hr)]]; subst r0; [right; right; reflexivity|left].
+          exists Rn, (b_num b2), (b_szx b2), (m_mps req1). split; [right; eauto|reflexivity].
+      - destruct B as [_ ->]. destruct (needs_chunking req1 rendering); [left|right; left; reflexivity].
+        exists rendering, 0, (m_mbse req1), (m_mps req1). split; [left|]; reflexivity. }
+    destruct Hr0 as [(R0 & n & szx & mps & Src & Hr0)|[Hr0|Hr0]]; subst r0.
+    + destruct (extract_block R0 n szx mps) as [x|e] eqn:X.
+      * cbn. apply extract_block_code in X. rewrite X. destruct Src as [->|(k & G)]; [right; left; reflexivity|right; right; eauto].
+      * apply extract_block_err in X. subst e. left. cbn; auto.
+    + right; left. reflexivity.
+    + left. cbn; auto.
+Qed.
+
+Definition is_5xx (c : Z) : bool := (160 <=? c) && (c <? 192).
+Definition rend_class_ok (gh : ghost) : Prop := forall i k R, g_rend gh i k = Some R -> is_5xx (p_code R) = false.
+Definition ev_class_ok (e : event) : Prop := match e with Request _ _ r => is_5xx (p_code r) = false | Advance _ => True end.
+Definition out_class_ok (o : output) : Prop := match o with ORequest _ res _ _ => is_5xx (p_code res) = false | OAdvance _ => True end.
+Lemma run_no_5xx_any T es : forall sv gh, Forall wf_event es -> Forall ev_class_ok es -> server_inv gh sv -> rend_class_ok gh ->
+  Forall out_class_ok (snd (run T sv es)).
+Proof.
+  induction es as [|e es IH]; intros sv gh F C I Rc; [constructor|].
+  inversion F as [|? ? We Fr]; subst. inversion C as [|? ? Ce Cr]; subst. cbn [run].
+  destruct (step_inv T sv gh e We I) as [I' O].
+  assert (Rc' : rend_class_ok (step_ghost T sv gh e)).
+  { destruct e as [i req rendering|dt]; [|exact Rc]. intros j k R. cbn [step_ghost g_rend].
+    destruct (Nat.eq_dec j i) as [->|N]; [rewrite fset_same|rewrite fset_other by exact N; apply Rc].
+    unfold grend_step. destruct (feed_and_take T (now sv) (block1 (nth i (resources sv) rstate_empty)) req) as [sp [req1|e]]; [|apply Rc].
+    apply (ghost2_step_P (fun R => is_5xx (p_code R) = false)); [apply Rc|exact Ce]. }
+  destruct (step T sv e) as [sv1 o] eqn:S. cbn [fst snd] in *.
+  specialize (IH sv1 (step_ghost T sv gh e) Fr Cr I' Rc').
+  destruct (run T sv1 es) as [sv2 os]. cbn [snd] in *. constructor; [|exact IH].
+  destruct e as [i req rendering|dt]; destruct o as [calls res n1 n2|sz]; cbn [out_ok] in O; try contradiction; try exact Logic.I.
+  cbn [out_class_ok]. destruct O as [O _].
+  destruct (resp_ok_code _ _ _ _ _ _ O) as [H|[H|(k & Rn & G & H)]].
+  - cbn in H. destruct H as [<-|[<-|[<-|[]]]]; reflexivity.
+  - rewrite H. exact Ce.
+  - rewrite H. exact (Rc i k Rn G).
+Qed.
+
+(* a request stopped by the spool (2.31 / 4.00 / 4.08) does not touch the cache and does not reach the handler *)
+Lemma spool_error_keeps_cache T now s req rendering sp e :
+  feed_and_take T now (block1 s) req = (sp, RRaise e) ->
+  render_to_pipe T now s req rendering = ({| block1 := sp; block2 := block2 s |}, [], error_to_message e).
+Proof. intros H. unfold render_to_pipe. rewrite H. reflexivity. Qed.
+
+(* the decision tables at history level: every resource of every reachable server *)
+Lemma reachable_tables T sv gh : reachable T sv gh -> forall i,
+  let s := nth i (resources sv) rstate_empty in
+  spool_inv (g_asm gh i) (block1 s) /\ cache_inv (g_rend gh i) (block2 s) /\ gasm_wf (g_asm gh i) /\
+  stored_is_latest (g_rend gh i) (g_latest gh i).
+Proof. intros R i. exact (reachable_inv T sv gh R i). Qed.
+
+Lemma step_request_eq T sv i req rendering :
+  step T sv (Request i req rendering) =
+  let '(s', calls, res) := render_to_pipe T (now sv) (nth i (resources sv) rstate_empty) req rendering in
+  ({| now := now sv; resources := set_nth i s' (resources sv) |}, ORequest calls res (fst (rsizes s')) (snd (rsizes s'))).
+Proof. reflexivity. Qed.
+
+Lemma reachable_block1_table T sv gh i req rendering b : reachable T sv gh -> m_block1 req = Some b ->
+  let s := nth i (resources sv) rstate_empty in
+  let k := extract_block_key req in
+  let '(s', calls, res) := render_to_pipe T (now sv) s req rendering in
+  (b_more b = true -> b_num b = 0 -> calls = [] /\ res = continue_resp b /\ kget k (block1 s') = Some req) /\
+  (b_num b <> 0 -> kget k (block1 s) = None -> calls = [] /\ res = incomplete_resp /\ s' = s) /\
+  (forall asm, b_num b <> 0 -> kget k (block1 s) = Some asm ->
+     (size_ok b req = false -> calls = [] /\ res = bad_request_resp txt_size_mismatch /\ kget k (block1 s') = Some asm) /\
+     (size_ok b req = true -> b_start b <> blen (m_payload asm) -> calls = [] /\ res = incomplete_resp /\ kget k (block1 s') = Some asm) /\
+     (size_ok b req = true -> b_start b = blen (m_payload asm) -> b_more b = true ->
+        calls = [] /\ res = continue_resp b /\ kget k (block1 s') = Some (appended asm req b))) /\
+  (forall k', k' <> k -> kget k' (block1 s') = kget k' (block1 s)).
+Proof.
+  intros R Hb. destruct (reachable_inv T sv gh R i) as (I1 & _).
+  exact (block1_responses_lemma T (now sv) (g_asm gh i) _ req rendering b Hb I1).
+Qed.
+
+Lemma reachable_block2_table T sv gh i req rendering b2 : reachable T sv gh ->
+  m_block1 req = None -> m_block2 req = Some b2 -> b_num b2 <> 0 ->
+  let s := nth i (resources sv) rstate_empty in
+  let k := extract_block_key req in
+  let '(s', calls, res) := render_to_pipe T (now sv) s req rendering in
+  calls = [] /\
+  (res = incomplete_resp \/
+   exists Rn, g_latest gh i k = Some Rn /\
+     res = if b2_start (b_szx b2) (b_num b2) >=? blen (p_payload Rn) then bad_request_resp txt_out_of_bounds
+           else slice_resp Rn (b_num b2) (b_szx b2) (m_mps req)).
+Proof.
+  intros R H1 H2 Hn. destruct (reachable_inv T sv gh R i) as (_ & I2 & _ & I4).
+  exact (block2_latest_rendering_lemma T (now sv) (g_rend gh i) (g_latest gh i) _ req rendering b2 H1 H2 Hn I2 I4).
+Qed.
+
+Lemma reachable_handler_bodies T sv gh i req rendering : reachable T sv gh -> wf_req req ->
+  forall c, In c (snd (fst (render_to_pipe T (now sv) (nth i (resources sv) rstate_empty) req rendering))) ->
+  match m_block1 req with
+  | None => c = req
+  | Some b =>
+    b_more b = false /\
+    exists bs, ghost1_step (g_asm gh i) req (extract_block_key req) = Some bs /\ chain (extract_block_key req) bs /\
+               last bs req = req /\ assembled_from c bs
+  end.
+Proof.
+  intros R Wr. destruct (reachable_inv T sv gh R i) as (I1 & I2 & I3 & _).
+  exact (handler_sees_complete_bodies_lemma T (now sv) (g_asm gh i) (g_rend gh i) _ req rendering Wr I1 I2 I3).
+Qed.
+
+(* the schedule model with a handler that returns at once is the atomic model: [SBegin] directly followed by its
+   [SFinish] is the [Request] step (requests without Block1 that make the handler render) *)
+Lemma atomic_schedule_is_request T st id req rendering : m_block1 req = None -> is_first req = true ->
+  let '(st1, o1) := sstep T st (SBegin id req) in
+  let '(st2, o2) := sstep T st1 (SFinish id rendering) in
+  let '(s', calls, res) := render_to_pipe T (s_now st) (s_res st) req rendering in
+  o1 = SOBegin calls /\ o2 = SOFinish (Some res) (snd (rsizes s')) /\ s_res st2 = s' /\ s_now st2 = s_now st.
+Proof.
+  intros H1 Hf. cbn [sstep]. cbn [s_pending pending_get s_now s_res]. rewrite Z.eqb_refl.
+  assert (Hb : match m_block2 req with Some b2 => b_num b2 = 0 | None => True end).
+  { unfold is_first in Hf. destruct (m_block2 req) as [b2|]; [lia|trivial]. }
+  pose proof (eoi_first T (s_now st) (block2 (s_res st)) req rendering Hb) as E. cbn zeta in E.
+  unfold render_to_pipe. rewrite (fat_none T (s_now st) (block1 (s_res st)) req H1).
+  destruct (extract_or_insert T (s_now st) (block2 (s_res st)) req rendering) as [[ca calls] r] eqn:X.
+  assert (Hc : calls = [req]).
+  { destruct (needs_chunking req rendering); injection E as _ <- _; reflexivity. }
+  subst calls. destruct r as [x|e]; cbn [render_result_of s_res s_now]; repeat split; rewrite ?H1; reflexivity.
+Qed.
